@@ -40,6 +40,20 @@ CHECKS = {
         "note": "PathBuf opaque; sort (WalkDir/filesystem) and specification (or_else) not under contract — the argument-order half of C20 is not covered.",
         "technique": "contract-based deductive verification (Verus) of mechanically extracted real code",
     },
+    "C07": {
+        "text": "Verus proves the semantic contract (HT-equivalence in both worlds for H subset of T, classical equivalence, no new free variables) directly on the real bodies of 8 of the 10 intuitionistic rewrites, "
+                "and the lifting through the real Apply::apply, composition and apply_fixpoint. The remaining two intuitionistic rewrites and the classic portfolio are not under contract, so the claim is partial.",
+        "design_ref": "DESIGN.md §5 C07",
+        "note": "conjoin/disjoin assumed contract; remove_orphaned_variables, join_nested_quantifiers, classic.rs, Compose::compose not verified; D11/D12 normalisations applied by the extractor.",
+        "technique": "contract-based deductive verification (Verus) of mechanically extracted real code",
+    },
+    "C18": {
+        "text": "Verus proves partial correctness of the real apply_fixpoint: the result is a fixpoint of one more pass (idempotence) and keeps the meaning of the input for meaning-preserving operations. "
+                "Termination and cross-process determinism are not decided.",
+        "design_ref": "DESIGN.md §5 C18, §6",
+        "note": "exec_allows_no_decreases_clause on apply_fixpoint (termination not claimed); closure assumed total and state-independent.",
+        "technique": "contract-based deductive verification (Verus) of mechanically extracted real code",
+    },
 }
 NOT_APPLICABLE = {
     "C01": "not yet built (planned: Verus unit `tau`)",
